@@ -162,3 +162,123 @@ def args_for(tier):
         out.append(('set_extra_core', [], ['V'] * n, []))
         out.append(('set_build', [], [], ['V'] * min(n, 2)))
     return out
+
+
+# ------------------------------------------------------------------ serialisation is injective (necessary for a lossless round trip)
+PRECS = ['Epoch', 'Major', 'Minor', 'Patch', 'Core', 'PreReleaseLabel', 'PreReleaseNum', 'Post', 'Dev', 'ExtraCore', 'Build']
+
+
+def prec_orders(tier):
+    """menu of precedence orders: the default, every adjacent swap, reversed, a prefix, empty"""
+    out = [('default', list(PRECS))]
+    for i in range(0, len(PRECS) - 1, 1 if tier != 'quick' else 3):
+        p = list(PRECS)
+        p[i], p[i + 1] = p[i + 1], p[i]
+        out.append(('swap%d' % i, p))
+    out.append(('reversed', list(reversed(PRECS))))
+    out.append(('prefix3', PRECS[:3]))
+    out.append(('empty', []))
+    return out
+
+
+def val_eq(a, b):
+    """structural identity of two interpreter values (order of map entries included) as a z3 formula / python bool —
+    independent of zerv's PartialEq impls and of serde"""
+    from models_serde import conj_, _t, _b
+    a, b = peel(a), peel(b)
+    if isinstance(a, (StringObj, Str)) and isinstance(b, (StringObj, Str)):
+        if len(a.chars) != len(b.chars):
+            return False
+        return conj_([(_t(x) == _t(y)) if (z3.is_expr(x) or z3.is_expr(y)) else x == y for x, y in zip(a.chars, b.chars)])
+    if isinstance(a, VecObj) and isinstance(b, VecObj):
+        if len(a.items) != len(b.items):
+            return False
+        return conj_([val_eq(x, y) for x, y in zip(a.items, b.items)])
+    if isinstance(a, MapObj) and isinstance(b, MapObj):
+        if len(a.entries) != len(b.entries):
+            return False
+        return conj_([conj_([val_eq(x[0], y[0]), val_eq(x[1], y[1])]) for x, y in zip(a.entries, b.entries)])
+    if isinstance(a, Adt) and isinstance(b, Adt):
+        if a.name != b.name:
+            return False
+        va, vb = a.variant, b.variant
+        if isinstance(va, int) and isinstance(vb, int):
+            if va != vb:
+                return False
+            if a.name == 'Option' and va == 0:
+                return True
+            return conj_([val_eq(x, y) for x, y in zip(a.fields, b.fields)])
+        inner = conj_([val_eq(x, y) for x, y in zip(a.fields, b.fields)])
+        if a.name == 'Option':
+            return z3.And(_t(va) == _t(vb), z3.Or(_t(va) == 0, _b(inner)))
+        return conj_([_t(va) == _t(vb), inner])
+    if z3.is_expr(a) or z3.is_expr(b):
+        return _t(a) == _t(b)
+    return a == b
+
+
+def path_ser(ctx, arg):
+    """two Zerv objects with independent symbolic contents; zerv's own Serialize impls (MIR) run against a recording
+    serializer; z3 is asked for contents where the two objects differ but their serde documents coincide"""
+    import models_serde as MSD
+    I, w = ctx.I, ctx.w
+    vi = I.prog.variant_index
+    (na, oa), (nb, ob) = arg['orders']
+    spec = arg['schema']
+
+    def build(order, tag):
+        def comp(i, c):
+            if c[0] == 'uint':
+                return Adt('Component', vi('Component', 'UInt'), [w.fresh_int('%s_u%d' % (tag, i), 0, 2**64 - 1)])
+            if c[0] == 'str':
+                ch = w.fresh_int('%s_s%d' % (tag, i))
+                w.assume(C.domain(ch))
+                return Adt('Component', vi('Component', 'Str'), [StringObj([ch])])
+            return c06.comp_value(I, c)
+        parts = [VecObj([comp(10 * k + i, c) for i, c in enumerate(part)]) for k, part in enumerate(spec)]
+        po = I.call('PrecedenceOrder::from_precedences', [VecObj([Adt('Precedence', vi('Precedence', p), []) for p in order])])
+        r = I.call('ZervSchema::new_with_precedence', parts + [po])
+        if r.variant != 0:
+            raise Unsupported('menu schema rejected')
+        used = set(c06.NUMVARS) | {'pre_release', 'dirty', 'bumped_timestamp', 'last_timestamp'} | set(c06.TEXTVARS)
+        sv = c06.SymVars(w, I, used, dict(num_max=2**64 - 1, text_len=1))
+        return Adt('Zerv', 0, [r.fields[0], sv.value(I)])
+    A, B = build(oa, 'A'), build(ob, 'B')
+    try:
+        ta, tb = MSD.ser_value(I, A), MSD.ser_value(I, B)
+    except Panic as e:
+        ctx.violation(clause='panic', what='serialize', detail=str(e), vkey='panic|ser')
+        return
+    ctx.tag('serialized')
+    for name, keys in MSD.struct_keys(ta):
+        if len(set(keys)) != len(keys):
+            ctx.violation(clause='duplicate_key', what=name, keys=keys, orders=[na, nb], detail='struct %s emits a key twice: %r' % (name, keys), vkey='dup|' + name)
+            return
+    same_doc = MSD.tree_eq(ta, tb)
+    same_obj = val_eq(A, B)
+    if same_doc is False:
+        ctx.tag('documents_differ')
+        return
+    ctx.tag('documents_can_coincide')
+    cond = z3.Not(MSD._b(same_obj)) if same_obj is not True else z3.BoolVal(False)
+    m = w.find(z3.And(MSD._b(same_doc), cond))
+    if m is not None:
+        # which part differs while the document is the same
+        what = 'precedence_order' if oa != ob else 'contents'
+        ctx.violation(clause='not_injective', what=what, orders=[na, nb], order_a=oa, order_b=ob, schema=c06.schema_json(spec) if what == 'precedence_order' else None,
+                      detail='two different Zerv objects (%s: %s vs %s) serialise to the same document' % (what, na, nb), vkey='inj|' + what)
+    else:
+        ctx.tag('injective')
+
+
+def ser_args(tier):
+    orders = prec_orders(tier)
+    spec = ([('var', 'Major'), ('var', 'Minor'), ('var', 'Patch')], [('var', 'Epoch'), ('var', 'PreRelease'), ('var', 'Post'), ('var', 'Dev'), ('str', 'x')],
+            [('var', 'BumpedBranch'), ('uint', 0), ('var', 'Distance')])
+    out = [dict(orders=(orders[0], orders[0]), schema=spec)]
+    for i in range(len(orders)):
+        for j in range(i + 1, len(orders)):
+            if tier == 'quick' and i > 0 and j != i + 1:
+                continue
+            out.append(dict(orders=(orders[i], orders[j]), schema=spec))
+    return out
